@@ -98,6 +98,7 @@ typedef struct pcall {
     size_t n;
     const char *shape;
     long sparam;
+    int nullmeta; /* 1: the encoder is called with meta == NULL (its other code path) */
 } pcall;
 static const pcall CALLS[] = {
     {"delta_s", 0, 64, "randw", 0},   {"delta_u", 0, 64, "asc1", 0},   {"for", 0, 64, "rand8", 0},
@@ -118,6 +119,12 @@ static const pcall CALLS[] = {
     {"delta_u", 0, 64, "altbits", 48}, {"rle", 0, 64, "altbits", 40},
     {"group", 0, 1, "randw", 0},      {"group", 0, 2, "rand8", 0},      {"group", 0, 5, "rand32", 0},
     {"group", 0, 7, "randw", 0},      {"group", 0, 63, "randw", 0},     {"group", 0, 64, "rand8", 0},
+    /* the meta == NULL path of every encoder that documents the output as optional */
+    {"for", 0, 64, "rand8", 0, 1},      {"for_batch", 0, 64, "rand32", 0, 1}, {"for_batch", 0, 16, "randw", 0, 1},
+    {"for", 0, 7, "altbits", 40, 1},    {"rle", 0, 64, "runs", 5, 1},         {"rle_hdr", 0, 64, "runs", 2, 1},
+    {"gamma", 0, 64, "rand8", 0, 1},    {"edelta", 0, 64, "randw", 0, 1},     {"bp32", 0, 130, "rand32", 0, 1},
+    {"bp64", 0, 130, "randw", 0, 1},    {"bpd64", 0, 130, "randw", 0, 1},     {"adaptive", -1, 64, "randw", 0, 1},
+    {"adaptive", 1, 64, "rand8", 0, 1}, {"adaptive", 2, 64, "cluster", 49, 1}, {"adaptive", -1, 300, "asc16", 0, 1},
     /* the widest values of every codec (64-bit codes, 9-byte varints, 64-bit blocks) */
     {"edelta", 0, 8, "nine", 0},      {"edelta", 0, 64, "max64", 0},    {"gamma", 0, 8, "nine", 0},
     {"gamma", 0, 64, "rand64", 0},    {"bp64", 0, 64, "max64", 0},      {"bpd64", 0, 64, "rand64", 0},
@@ -367,7 +374,9 @@ static void late_crash(int sig) {
 
 static void run_call(size_t ci, const char *sched, const char *proc) {
     const pcall *c = &CALLS[ci];
-    snprintf(g_cur_id, sizeof(g_cur_id), "%s/%ld/%zu/%s/%ld", c->codec, c->param, c->n, c->shape, c->sparam);
+    snprintf(g_cur_id, sizeof(g_cur_id), "%s/%ld/%zu/%s/%ld%s", c->codec, c->param, c->n, c->shape, c->sparam,
+             c->nullmeta ? "/nm" : "");
+    g_null_meta = c->nullmeta; /* holds for the previous calls of the schedule too */
     g_cur_sched = sched;
     g_cur_proc = proc;
     g_late_crash = late_crash;
@@ -518,7 +527,8 @@ static void run_call(size_t ci, const char *sched, const char *proc) {
     }
     ev_begin("Call");
     char id[96];
-    snprintf(id, sizeof(id), "%s/%ld/%zu/%s/%ld", c->codec, c->param, c->n, c->shape, c->sparam);
+    snprintf(id, sizeof(id), "%s/%ld/%zu/%s/%ld%s", c->codec, c->param, c->n, c->shape, c->sparam,
+             c->nullmeta ? "/nm" : "");
     ev_str("id", id);
     ev_str("proc", proc);
     ev_str("sched", sched);
@@ -532,6 +542,7 @@ static void run_call(size_t ci, const char *sched, const char *proc) {
     free(xs);
     free(x32);
     free(dst);
+    g_null_meta = 0;
 }
 
 int main(int argc, char **argv) {
